@@ -251,13 +251,15 @@ def generate(rng: random.Random, tier: str):
     # big automata (appended stream): a nullable prefix followed by long sequences / large counts, so that the NFA has well
     # over ten nodes and the subset construction has to tell state sets like {1,2} and {12} apart
     for _ in range(60 if quick else 1500):
-        atoms = rng.choice([["a", "b"], ["a", "b", "c"], ["a", "b", "g"]])
-        pre = rng.choice([("op", ("name", atoms[0]), "*"), ("op", ("name", atoms[0]), "?"),
-                          ("op", ("alt", [("name", atoms[0]), ("name", atoms[-1])]), "*")])
+        # the counted parts use symbols the nullable prefix cannot produce: otherwise the DFA has to remember the last
+        # dozen symbols and explodes (tens of thousands of states; compile time and recursion depth grow with it)
+        atoms = rng.choice([["a", "b"], ["a", "b", "c"], ["c", "a", "b"]])
+        pre = rng.choice([("op", ("name", atoms[0]), "*"), ("op", ("name", atoms[0]), "?")])
+        rest = atoms[1:]
         parts = [pre]
         for _ in range(rng.randint(1, 3)):
             r = rng.random()
-            a = ("name", rng.choice(atoms))
+            a = ("name", rng.choice(rest))
             if r < 0.4:
                 n = rng.randint(4, 12)
                 parts.append(("range", a, n, None))
@@ -267,7 +269,7 @@ def generate(rng: random.Random, tier: str):
             elif r < 0.75:
                 parts.append(("range", a, rng.randint(3, 8), -1))
             else:
-                parts.extend(("name", rng.choice(atoms)) for _ in range(rng.randint(4, 10)))
+                parts.extend(("name", rng.choice(rest)) for _ in range(rng.randint(4, 10)))
         yield expr_case(("seq", parts), "big-automaton")
 
 
